@@ -52,6 +52,8 @@ pub struct Analysis {
   pub stale_before_bu: BTreeMap<usize, Vec<(TaskId, DepTarget)>>,
   /// Tasks executed during the bottom-up build of a session.
   pub bu_executed: BTreeMap<usize, BTreeSet<TaskId>>,
+  /// The same per bottom-up build: (session, build index, executed tasks).
+  pub bu_exec_builds: Vec<(usize, usize, BTreeSet<TaskId>)>,
   /// Root causes of executions in judged builds: (session, build, task, target).
   pub root_causes: Vec<(usize, usize, TaskId, Option<DepTarget>)>,
   /// Whether the analysis stopped early because a build aborted.
@@ -174,6 +176,7 @@ pub fn analyze(case: &Case, run: &Run) -> Analysis {
           an.stale_before_bu.entry(si).or_insert(stale);
           acc.bottom_up_build(report, b.log.clone(), &b.result);
           an.bu_executed.entry(si).or_default().extend(acc.facts.executed.iter().cloned());
+          an.bu_exec_builds.push((si, bi, acc.facts.executed.iter().cloned().collect()));
           // Later requires in this session are judged against the state the bottom-up build left.
           model = Eval::new(prog, b.state_after.clone());
         }
